@@ -44,7 +44,9 @@ def toml_text(kind):
 
 
 def launch_spec(r):
-    return {"processes": [{"type": r.choice(["web", "worker"]), "command": ["run", r.choice(tomlw.RND_STRINGS)], "args": [r.choice(tomlw.RND_STRINGS)], "default": r.random() < 0.5}],
+    return {"processes": [{"type": r.choice(["web", "worker"]), "command": ["run", r.choice(tomlw.RND_STRINGS)], "args": [r.choice(tomlw.RND_STRINGS)], "default": r.random() < 0.5,
+                           # (a working directory other than the app directory - spelled ".", relative, absolute, empty: written as it was given)
+                           **({"wd": r.choice([".", "sub dir", "/abs/dir", "", "./"])} if r.random() < 0.5 else {})}],
             "labels": [[r.choice(tomlw.RND_STRINGS), r.choice(tomlw.RND_STRINGS)]],
             # (slices, some of them repeated; "plural": everything goes through the batch setters processes() / labels() / slices())
             "slices": [r.choice([["a/*"], ["b", "c/**"], ["a/*"], [r.choice(tomlw.RND_STRINGS)]]) for _ in range(r.choice([0, 0, 1, 3, 5]))], "plural": r.random() < 0.5}
@@ -305,7 +307,7 @@ def run_cfg(lay, cfg, idx, seed, sh):
             allowed.add(b"layers/launch.toml")
             try:
                 got = c07.read_launch(tomllib.loads(post[b"layers/launch.toml"][2].decode()))
-                want = {"processes": [{"type": p["type"], "command": p["command"], "args": p["args"], "default": p["default"], "wd": None} for p in b["launch"]["processes"]],
+                want = {"processes": [{"type": p["type"], "command": p["command"], "args": p["args"], "default": p["default"], "wd": p.get("wd")} for p in b["launch"]["processes"]],
                         "labels": b["launch"]["labels"], "slices": b["launch"].get("slices", [])}
                 if got != want:
                     sh.violation("launch:content", "%s: launch.toml reads %r, returned %r" % (what, got, want), case)
